@@ -226,7 +226,9 @@ theorem pop_expand (E : Env S) (s s2 : St S) (nt : NT S Unit) (top : HeapElem) (
     s2.bank = s.bank ∧ QAll (QWf E) s2 ∧ DAll (DWf E) s2 ∧ (∀ nt' P', Frontier (pend s2 nt' P')) ∧
     (∀ nt' P' c, Done (pend s nt' P') c → Done (pend s2 nt' P') c) ∧ Done (pend s2 nt top.P) top.combo ∧
     top.combo ∈ pend s nt top.P ∧ top.combo.length = args.length ∧
-    (∀ nt' P' c, Cov (pend s nt' P') c → Cov (pend s2 nt' P') c) := by
+    (∀ nt' P' c, Cov (pend s nt' P') c → Cov (pend s2 nt' P') c) ∧
+    (∀ nt' P' c, Done (pend s2 nt' P') c → (nt' = nt ∧ P' = top.P ∧ c = top.combo) ∨ Done (pend s nt' P') c) ∧
+    (∀ nt' P' u, u ∈ pend s2 nt' P' → u ∈ pend s nt' P' ∨ (nt' = nt ∧ P' = top.P ∧ u ∈ CD.succs top.combo)) := by
   have hperm := Heapq.pop_perm ltE _ _ _ hpop
   have htop : top ∈ s.queueOf nt := hperm.mem_iff.mpr List.mem_cons_self
   obtain ⟨l0, hl0, he0⟩ := queueOf_mem htop
@@ -274,7 +276,7 @@ theorem pop_expand (E : Env S) (s s2 : St S) (nt : NT S Unit) (top : HeapElem) (
       simp only [hP, if_false, List.nil_append] at this
       exact this.symm
     · rw [p3 nt' P' hn]
-  refine ⟨hqd.bank, hq2, hd2, ?_, ?_, e2, hF0.mem_iff.mpr List.mem_cons_self, hlen, ?_⟩
+  refine ⟨hqd.bank, hq2, hd2, ?_, ?_, e2, hF0.mem_iff.mpr List.mem_cons_self, hlen, ?_, ?_, ?_⟩
   · intro nt' P'
     by_cases hc : nt' = nt ∧ P' = top.P
     · obtain ⟨rfl, rfl⟩ := hc; exact e1
@@ -288,6 +290,20 @@ theorem pop_expand (E : Env S) (s s2 : St S) (nt : NT S Unit) (top : HeapElem) (
     · obtain ⟨rfl, rfl⟩ := hc
       exact Cov.expand top.combo (pend s2 nt' top.P) ((h.front nt' top.P).perm hF0.symm) h2 (hd.perm hF0.symm)
     · exact hd.perm (hother nt' P' hc)
+  · intro nt' P' c hd
+    by_cases hc : nt' = nt ∧ P' = top.P
+    · obtain ⟨rfl, rfl⟩ := hc
+      rcases Done.expand_conv top.combo (pend s2 nt' top.P) h2 hd with h3 | h3
+      · exact Or.inl ⟨rfl, rfl, h3⟩
+      · exact Or.inr (h3.perm hF0)
+    · exact Or.inr (hd.perm (hother nt' P' hc).symm)
+  · intro nt' P' u hu
+    by_cases hc : nt' = nt ∧ P' = top.P
+    · obtain ⟨rfl, rfl⟩ := hc
+      rcases List.mem_append.mp (h2.mem_iff.mp hu) with h3 | h3
+      · exact Or.inr ⟨rfl, rfl, h3⟩
+      · exact Or.inl (hF0.mem_iff.mpr (List.mem_cons_of_mem _ h3))
+    · exact Or.inl ((hother nt' P' hc).mem_iff.mp hu)
 
 theorem inBank_of_bank_eq {s s' : St S} (hb : s'.bank = s.bank) (nt : NT S Unit) (ci : Nat) (p : Prog) :
     inBank s' nt ci p ↔ inBank s nt ci p := by
